@@ -10,7 +10,6 @@ spec fn next_spec(s: Strat, key: Seq<char>) -> Strat {
     match s { Strat::No => Strat::No, Strat::Top => Strat::No, Strat::All => Strat::All, Strat::Custom(p) => Strat::Custom(next_paths_spec(p, key)) }
 }
 
-spec fn keys_unique(m: Seq<(Seq<char>, J)>) -> bool { forall|i: int, k: int| 0 <= i < k < m.len() ==> m[i].0 != m[k].0 }
 spec fn wf_j(j: J) -> bool decreases j {
     match j { J::Arr(a) => wf_seq(a), J::Obj(m) => keys_unique(m) && wf_entries(m), _ => true }
 }
@@ -69,28 +68,6 @@ proof fn lemma_entries_elem(s: Seq<(Seq<char>, J)>, i: int)
     decreases s.len()
 {
     if i < s.len() - 1 { lemma_entries_elem(s.drop_last(), i); }
-}
-proof fn lemma_j_idx0(s: Seq<(Seq<char>, J)>, k: Seq<char>)
-    requires s.len() > 0, s[0].0 == k
-    ensures j_idx(s, k) == 0
-{}
-proof fn lemma_j_has_iff(s: Seq<(Seq<char>, J)>, k: Seq<char>)
-    ensures j_has(s, k) <==> exists|q: int| 0 <= q < s.len() && #[trigger] s[q].0 == k
-    decreases s.len()
-{
-    if s.len() > 0 {
-        lemma_j_has_iff(s.drop_first(), k);
-        if s[0].0 != k {
-            if j_has(s.drop_first(), k) {
-                let q = choose|q: int| 0 <= q < s.drop_first().len() && #[trigger] s.drop_first()[q].0 == k;
-                assert(s[q + 1].0 == k);
-            }
-            if exists|q: int| 0 <= q < s.len() && #[trigger] s[q].0 == k {
-                let q = choose|q: int| 0 <= q < s.len() && #[trigger] s[q].0 == k;
-                assert(s.drop_first()[q - 1].0 == k);
-            }
-        }
-    }
 }
 proof fn lemma_drop_sd_update(s: Seq<(Seq<char>, J)>, i: int, v: J)
     requires 0 <= i < s.len(), s[i].0 == K_SD()
